@@ -83,6 +83,10 @@ def run(rep: Report, tier: str, only=None) -> None:
 						rep.violation(f['category'], (f'class={f["class"]} ' if f.get('class') else '') + what, {'property': 'C01', 'kind': 'tv', 'source': f['source'], 'name': f['name'], 'model': f['model'], 'cpp': f.get('cpp')})
 				else:
 					rep.error(f'{f["name"]}: solver model {f.get("model")} does not reproduce under g++ / CPython ({f.get("py_result")!r} vs {f.get("cpp_result")!r}) -> encoding problem, not reported as a violation; source {f["source"]!r} emitted {f.get("cpp")!r}')
+			elif v == 'compile_error':
+				stats['sat'] += 1
+				cat['differ'] += 1
+				rep.violation(f['category'], f'the emitted C++ is not accepted by g++ -std=c++20: {f.get("detail", "")[-200:]!r} | source: {f["source"].strip()!r} | emitted: {f.get("cpp", "").strip()!r}', {'property': 'C01', 'kind': 'tv-compile', 'source': f['source'], 'name': f['name']})
 			elif v == 'rejected':
 				stats['rejected'] += 1
 				cat['inconclusive'] += 1
